@@ -217,6 +217,14 @@ func toInt[T ~int | ~int8 | ~int16 | ~int32 | ~int64 | ~uint | ~uint8 | ~uint16 
 
 // GenFlat draws a Flat.
 func GenFlat(t *rapid.T, label string) Flat {
+	switch rapid.IntRange(0, 7).Draw(t, label+"Zeroish") {
+	case 0:
+		return Flat{} // a pointer to the all-zero struct is not a nil pointer
+	case 1:
+		return Flat{B: Str().Draw(t, label+"OnlyB")}
+	case 2:
+		return Flat{D: true}
+	}
 	return Flat{
 		A: int(intIn(-maxSafe, maxSafe).Draw(t, label+"A")),
 		B: Str().Draw(t, label+"B"),
